@@ -55,7 +55,7 @@ func Generate(property, tier string, seed uint64) *Trace {
 		if r.Chance(0.12) {
 			tr.Steps = append(tr.Steps, Step{Op: "crash"})
 		}
-		switch r.Pick([]int{4, 4, 4, 3, 5, 4, 3, 2, 2, 2, 2, 3}) {
+		switch r.Pick([]int{4, 4, 4, 3, 5, 4, 3, 2, 2, 2, 2, 3, 4}) {
 		case 0:
 			p := pick()
 			tr.Steps = append(tr.Steps, Step{Op: "create", Slot: nextSlot, Pass: p})
@@ -131,6 +131,12 @@ func Generate(property, tier string, seed uint64) *Trace {
 		case 11:
 			// import of an address that is already stored
 			tr.Steps = append(tr.Steps, Step{Op: "import_obj", Slot: nextSlot, Key: r.Intn(4), Pass: pick()})
+			nextSlot++
+		case 12:
+			// secp256k1 keys come in as armors; a small pool so that the same key is imported again
+			p := pick()
+			tr.Steps = append(tr.Steps, Step{Op: "import_secp", Slot: nextSlot, Key: r.Intn(3), Pass: p})
+			slotPass[nextSlot] = p
 			nextSlot++
 		}
 	}
